@@ -1093,6 +1093,9 @@ def check(prog, rep):
         pass
     c = C()
     c.pub = pub
+    from ..sharedrules import check_values_keep_dtype
+    check_values_keep_dtype(prog, rep, 'A5-dtype', pub, ENTRY)
+    rep.floor('A5-dtype', 1)
     # the search kernel: the jit function the wrapper calls that contains a while loop
     kc = None
     kscope = pub
